@@ -130,7 +130,30 @@ func scanRescPair(c *core.Ctx) []ob {
 				}
 				return true
 			})
-			if strings.HasSuffix(fd.Name.Name, "NTT") {
+			// the multi-step path handed as a whole to a helper of the family (itself held to these rules, including the
+			// INTT/NTT pair when it transforms): `r.divByLastModulusManyCoeffDomain(Ring.DivFloorByLastModulus, n, p0, buff, p1)`
+			if nDiv == 0 && len(fd.Body.List) > 1 {
+				if es, ok := fd.Body.List[len(fd.Body.List)-1].(*ast.ExprStmt); ok {
+					if call, ok := es.X.(*ast.CallExpr); ok {
+						if h := calleeFunc(info, call); h != nil && h.Pkg() == pk.Types && strings.Contains(strings.ToLower(h.Name()), "bylastmodulusmany") && h.Name() != fd.Name.Name {
+							out = append(out, okOb("RESCPAIR", key, c.Rel(fd.Pos()), "the repeated division is delegated to "+h.Name(), false))
+							continue
+						}
+					}
+				}
+			}
+			transforms := false
+			ast.Inspect(fd.Body, func(nd ast.Node) bool {
+				if call, ok := nd.(*ast.CallExpr); ok {
+					if sel, ok := unparen(call.Fun).(*ast.SelectorExpr); ok && (sel.Sel.Name == "INTT" || sel.Sel.Name == "NTT") {
+						if o := identObj(info, sel.X); o != nil && o != recvVar {
+							transforms = true
+						}
+					}
+				}
+				return true
+			})
+			if strings.HasSuffix(fd.Name.Name, "NTT") || transforms {
 				nINTT, nNTT := 0, 0
 				ast.Inspect(fd.Body, func(nd ast.Node) bool {
 					if call, ok := nd.(*ast.CallExpr); ok {
